@@ -29,7 +29,7 @@ class A2(A):
 
 class B(pg.Object):
   p: pg.typing.List(pg.typing.Int(), max_size=3)
-  q: pg.typing.Float(min_value=0.0, max_value=1.0).noneable()
+  q: pg.typing.Float(min_value=0.0, max_value=1.0)
   r: pg.typing.Union([pg.typing.Str(), pg.typing.Int()])
   s: pg.typing.Dict([('k', pg.typing.Int()), ('l', pg.typing.Str())])
 
@@ -103,6 +103,8 @@ def L(xs):
 def O(cls, **kw):
   # Fields in schema order (the order pyglove stores/traverses them).
   order = [str(k) for k in cls.__schema__.fields.keys()]
+  if issubclass(cls, A):
+    kw.setdefault('y', None)
   return N('o', cls=cls, items=[(k, _n(kw[k])) for k in order if k in kw])
 
 
@@ -778,6 +780,18 @@ def may_overlap(a, b, sel):
   return False
 
 
+def unselected_below_selected_choice(root, sel):
+  """A selected oneof/manyof has a filtered-out placeholder in a candidate."""
+  if sel is None:
+    return False
+  for n in walk(root):
+    if n.kind in ('one', 'many') and is_sel(n, sel):
+      for c in n.cands:
+        if any(m.kind in HYPER and not is_sel(m, sel) for m in walk(c)):
+          return True
+  return False
+
+
 def distinguishable(root, sel):
   for n in walk(root):
     if n.kind in ('one', 'many') and is_sel(n, sel):
@@ -966,6 +980,11 @@ def check_template(rec, root, sel, rnd, cap, deep_checks=6):
     pairs = [sample(root, sel, rnd) for _ in range(cap)]
   dist = distinguishable(root, sel)
   refs = has_ref(root)
+  has_obj = any(n.kind == 'o' for n in walk(root))
+  # Own id for: `where` keeps a placeholder that sits inside a candidate of a
+  # selected choice (encode consults the unfiltered template there).
+  esig = 'where-unselected-inside-selected-choice' if (
+      unselected_below_selected_choice(root, sel)) else sig
 
   seen = {}
   for idx, (dl, mv) in enumerate(pairs):
@@ -1017,7 +1036,7 @@ def check_template(rec, root, sel, rnd, cap, deep_checks=6):
              f'is_deterministic={det}, contains placeholder={left}, expected '
              f'deterministic={want_det}',
              wpre + f'assert pg.is_deterministic(t.decode(d)) == {want_det}')
-    sv = spec_violation(got)
+    sv = spec_violation(got) if has_obj else None
     rec.case(f'decode.spec-accepted/{sig}', key, sv is None,
              f'decoded value violates a bound value spec: {sv}',
              wpre + 'x = t.decode(d)\n' + IMPORT.replace('A, A2, B, IntSeq, nt', 'spec_violation')
@@ -1033,14 +1052,19 @@ def check_template(rec, root, sel, rnd, cap, deep_checks=6):
 
     # decode twice
     try:
+      if not deep and idx % 3:
+        raise StopIteration
       got2 = t.decode(dna)
       r2 = same(mv, got2)
       ok2 = r2 is None and pg.eq(got, got2)
       m2 = r2 or 'pg.eq(first, second) is False'
+    except StopIteration:
+      ok2 = None
     except Exception as e:  # pylint: disable=broad-except
       ok2, m2 = False, f'second decode raised {type(e).__name__}: {e}'
-    rec.case(f'decode.twice-equal/{sig}', key, ok2, m2,
-             wpre + 'assert pg.eq(t.decode(d), t.decode(d))')
+    if ok2 is not None:
+      rec.case(f'decode.twice-equal/{sig}', key, ok2, m2,
+               wpre + 'assert pg.eq(t.decode(d), t.decode(d))')
 
     # pairwise difference bookkeeping (own canonical keys).
     try:
@@ -1058,22 +1082,25 @@ def check_template(rec, root, sel, rnd, cap, deep_checks=6):
         val = val_fn()
         enc = t.encode(val)
       except Exception as e:  # pylint: disable=broad-except
-        rec.case(f'encode.{label}/{sig}', key, False,
+        rec.case(f'encode.{label}/{sig}' if esig is sig else f'encode/{esig}', key, False,
                  f'encode raised {type(e).__name__}: {str(e)[:300]}',
                  wpre + f't.encode({vs_})')
         continue
       if dist:
-        rec.case(f'encode.{label}/{sig}', key, enc == dna and dna == enc,
+        rec.case(f'encode.{label}/{sig}' if esig is sig else f'encode/{esig}', key,
+                 enc == dna and dna == enc,
                  f'encode gave {enc!r}, expected {dna!r}',
                  wpre + f'assert t.encode({vs_}) == d, t.encode({vs_})')
       else:
+        # Candidates can be confused: the statement only promises that the
+        # value is encodable; if the DNA decodes, it must decode to the value.
         try:
           back = t.decode(enc)
           okb = pg.eq(back, got)
           mb = f'decode(encode(x)) = {back!r} != x = {got!r}'
-        except Exception as e:  # pylint: disable=broad-except
-          okb, mb = False, f'decode(encode(x)) raised {type(e).__name__}: {e}'
-        rec.case(f'encode.{label}-redecode/{sig}', key, okb, mb,
+        except Exception:  # pylint: disable=broad-except
+          okb, mb = True, ''
+        rec.case(f'encode.{label}-redecode/{esig}', key, okb, mb,
                  wpre + f'x = t.decode(d); assert pg.eq(t.decode(t.encode({vs_})), x)',
                  nontrivial=False)
       if deep:
@@ -1215,14 +1242,15 @@ def typed_templates():
   return [
       O(B, p=Many(2, [1, 2, 3]), q=F(0.0, 1.0), r=One(['a', 5]),
         s=D(k=One([1, 2]), l='l')),
-      O(B, p=One([L([1]), L([2, 3]), L([])]), q=One([None, 0.5, F(0.25, 0.75)]),
+      O(B, p=One([L([1]), L([2, 3]), L([])]), q=One([0.0, 0.5, F(0.25, 0.75)]),
         r=One([One(['a', 'b']), 7]), s=One([D(k=1, l='a'), D(k=2, l=One(['b', 'c']))])),
-      O(B, p=L([One([1, 2]), 3]), q=None, r='r', s=D(k=0, l=One(['x', 'y']))),
+      O(B, p=L([One([1, 2]), 3]), q=1.0, r='r', s=D(k=0, l=One(['x', 'y']))),
       O(B, p=Many(3, [1, 2, One([3, 4])], False, True), q=F(1.0, 1.0), r=0,
         s=D(k=1, l='l')),
       O(A, x=One([0, 9, One([4, 5])]), y=O(A, x=One([1, 2]), y=O(A2, x=One([3])))),
-      D(u=O(A, x=Many(1, [1, 2]).__class__('c', v=3), y=Many(2, [O(A, x=1), O(A, x=One([2, 3]))]))),
-      L([O(B, p=Cu(3), q=One([0.0, 1.0]), r=Ev(), s=D(k=1, l='l'))]),
+      D(u=O(A, x=3, y=Many(2, [O(A, x=1), O(A, x=One([2, 3]))]))),
+      L([O(B, p=Cu(3), q=One([0.0, 1.0]), r=One([1, 'b']), s=D(k=1, l='l')),
+         O(A, x=3, y=Ev())]),
   ]
 
 
@@ -1311,7 +1339,8 @@ def all_templates(tier, seed, with_where=True):
   for pi, p in enumerate(P):
     for ci, (cname, ctx) in enumerate(ctxs):
       if quick:
-        if not (cname == 'root' or ci == 1 + (pi + seed) % (len(ctxs) - 1)):
+        if not ((cname == 'root' and (pi + seed) % 5 != 4)
+                or ci == 1 + (pi + seed) % (len(ctxs) - 1)):
           continue
       elif cname not in ('root', 'two', 'three') and (pi + ci + seed) % 3:
         continue
@@ -1320,7 +1349,7 @@ def all_templates(tier, seed, with_where=True):
       if not with_where or has_ref(root):
         continue
       if quick:
-        if (pi + seed) % 3 == 0 and (cname != 'root' or len(hyper_names(root)) > 1):
+        if (pi + seed) % 4 == 0 and (cname != 'root' or len(hyper_names(root)) > 1):
           for sel in where_variants(root, rnd, 2):
             yield root, sel
       elif cname in ('root', 'two', 'deep', 'three') and (pi + ci) % 2 == 0:
@@ -1332,7 +1361,7 @@ def all_templates(tier, seed, with_where=True):
     if with_where:
       for sel in where_variants(root, rnd, 2 if quick else 4):
         yield root, sel
-  n_rand = 16 if quick else 110
+  n_rand = 8 if quick else 110
   for i in range(n_rand):
     root = assign_names(random_root(rnd, rnd.choice([1, 2, 2, 3])))
     yield root, None
@@ -1342,7 +1371,7 @@ def all_templates(tier, seed, with_where=True):
 
 
 def drv_decode_encode(tier, seed):
-  cap = 12 if tier == 'quick' else 40
+  cap = 9 if tier == 'quick' else 40
   rec = Recorder(
       'C13', 'decode/encode vs reference model over template shapes x DNAs',
       scope='catalogue: ~70 placeholder shapes (oneof; manyof 4 modes, k<=3, '
@@ -1359,3 +1388,410 @@ def drv_decode_encode(tier, seed):
       rec.case('harness/' + signature(root, sel), (src(root), sel), False,
                f'harness error {type(e).__name__}: {e}', src(root))
   return rec.result()
+
+
+# ---------------------------------------------------------------------------
+# Driver 2: pg.iter / pg.random_sample enumerate exactly the space.
+# ---------------------------------------------------------------------------
+
+
+def only_custom_infinite(root, sel):
+  return not any(n.kind in ('f', 'ev') and is_sel(n, sel) for n in walk(root))
+
+
+def drv_iter(tier, seed):
+  cap = 40 if tier == 'quick' else 130
+  rec = Recorder(
+      'C13', 'pg.iter yields space_size pairwise different values (vs model)',
+      scope='catalogue + random templates (as in drv_decode_encode) without '
+      f'float/evolvable, model space size <= {cap}; with and without `where`; '
+      'num_examples in {1, size-1, size+2}; pg.random_sample membership')
+  rnd = rng(seed, 'c13-iter')
+  n_done = 0
+  limit = 70 if tier == 'quick' else 900
+  for ti, (root, sel) in enumerate(all_templates(tier, seed + 101)):
+    if n_done >= limit:
+      break
+    if not only_custom_infinite(root, sel):
+      continue
+    total = msize(root, sel)
+    if total > cap or not prim_paths(root, sel):
+      continue
+    if unselected_below_selected_choice(root, sel) and has_ref(root):
+      continue
+    n_done += 1
+    sig = signature(root, sel)
+    vsrc = src(root)
+    key0 = (vsrc, None if sel is None else tuple(sorted(sel)))
+    pre = header(root) + f'v = {vsrc}\n'
+    wsrc = where_src(sel)
+    try:
+      v = build(root)
+      snap = Snapshot(v)
+      pairs = enum(root, sel)
+      refs = has_ref(root)
+      want = [mv_key(resolve_refs(_copy_mv(mv)) if refs else mv) for _, mv in pairs]
+      xs = list(pg.iter(v, where=where_fn(sel)))
+      got = [pg_key(x) for x in xs]
+    except Exception as e:  # pylint: disable=broad-except
+      rec.case(f'iter.run/{sig}', key0, False,
+               f'unexpected {type(e).__name__}: {str(e)[:300]}',
+               pre + f'list(pg.iter(v{wsrc}))')
+      continue
+    rec.case(f'iter.count/{sig}', key0, len(xs) == total,
+             f'pg.iter yielded {len(xs)} values, space has {total}',
+             pre + f'assert len(list(pg.iter(v{wsrc}))) == {total}')
+    exact = msize(root, sel, exact=True)
+    if exact is not None:
+      sz = pg.dna_spec(v, where=where_fn(sel)).space_size
+      rec.case(f'iter.count-vs-space_size/{sig}', key0, len(xs) == sz,
+               f'pg.iter yielded {len(xs)} values, space_size is {sz}',
+               pre + f'assert len(list(pg.iter(v{wsrc}))) == pg.dna_spec(v{wsrc}).space_size')
+    rec.case(f'iter.values/{sig}', key0, set(got) == set(want),
+             f'values not in the space: {list(set(got) - set(want))[:2]}; '
+             f'missing: {list(set(want) - set(got))[:2]}',
+             pre + f'print(list(pg.iter(v{wsrc})))  # differs from the space of v')
+    if distinguishable(root, sel):
+      rec.case(f'iter.pairwise-different/{sig}', key0, len(set(got)) == len(got),
+               f'{len(got) - len(set(got))} repeated values',
+               pre + f'xs = list(pg.iter(v{wsrc}))\n'
+               'assert all(not pg.eq(a, b) for i, a in enumerate(xs) for b in xs[:i])')
+    df = snap.diff()
+    rec.case(f'iter.template-unchanged/{sig}', key0, df is None, df,
+             pre + f'j = pg.to_json_str(v); list(pg.iter(v{wsrc})); assert pg.to_json_str(v) == j')
+    for k in sorted({1, max(total - 1, 1), total + 2}):
+      try:
+        ys = list(pg.iter(v, k, where=where_fn(sel)))
+        ok = [pg_key(y) for y in ys] == got[:k]
+        msg = f'pg.iter(v, {k}) gave {len(ys)} values / other values than the first {k}'
+      except Exception as e:  # pylint: disable=broad-except
+        ok, msg = False, f'{type(e).__name__}: {e}'
+      rec.case(f'iter.num_examples/{sig}', key0 + (k,), ok, msg,
+               pre + f'assert len(list(pg.iter(v, {k}{wsrc}))) == {min(k, total)}')
+    if n_done % 3 == 0:
+      try:
+        zs = list(pg.random_sample(v, 6, where=where_fn(sel), seed=seed))
+        bad = [z for z in zs if pg_key(z) not in set(want)]
+        ok, msg = len(zs) == 6 and not bad, f'{len(zs)} samples; outside space: {bad[:1]}'
+      except Exception as e:  # pylint: disable=broad-except
+        ok, msg = False, f'{type(e).__name__}: {e}'
+      rec.case(f'random_sample.member/{sig}', key0, ok, msg,
+               pre + f'print(list(pg.random_sample(v, 6{wsrc}, seed={seed})))')
+  return rec.result()
+
+
+# ---------------------------------------------------------------------------
+# Driver 3: values decoded from a template bound to a value spec are accepted
+# by that spec (so unacceptable candidates must be refused at binding time).
+# ---------------------------------------------------------------------------
+
+
+class H(pg.Object):
+  """Holder with one field per value spec."""
+  i: pg.typing.Int(min_value=0, max_value=9) = 0
+  s: pg.typing.Str() = ''
+  f: pg.typing.Float(min_value=0.0, max_value=1.0) = 0.0
+  l: pg.typing.List(pg.typing.Int(min_value=0), min_size=1, max_size=3) = [0]
+  d: pg.typing.Dict([('k', pg.typing.Int()), ('l', pg.typing.Str())]) = dict(k=0, l='')
+  u: pg.typing.Union([pg.typing.Str(), pg.typing.Int()]) = 0
+  o: pg.typing.Object(A) = A(x=0)
+  e: pg.typing.Enum('a', ['a', 'b']) = 'a'
+  n: pg.typing.Int().noneable() = None
+  t: pg.typing.Tuple([pg.typing.Int(), pg.typing.Str()]) = (0, '')
+  b: pg.typing.Bool() = False
+  m: pg.typing.List(pg.typing.Int(), min_size=3) = [0, 0, 0]
+
+
+FIELD_VALUES = {
+    # field: (good candidate sources, bad candidate sources)
+    'i': (['0', '9', '5'], ['-1', '10', "'a'", '1.5', 'None', '[1]']),
+    's': (["'a'", "''"], ['1', 'None', "['a']"]),
+    'f': (['0.0', '1.0', '0.5', 'pg.floatv(0.25, 0.75)', 'pg.floatv(0.0, 1.0)'],
+          ['1.5', '-0.5', "'x'", 'None', 'pg.floatv(0.5, 1.5)',
+           'pg.floatv(-0.5, 0.5)', 'pg.floatv(2.0, 3.0)']),
+    'l': (['[1]', '[1, 2, 3]', '[pg.oneof([1, 2])]', 'pg.manyof(2, [1, 2, 3])',
+           'pg.manyof(3, [1, 2, 3], distinct=False)'],
+          ["['a']", '[1, 2, 3, 4]', '[]', '[-1]', '1', '[pg.oneof([1, -2])]',
+           "pg.manyof(2, [1, 'a', 3])", 'pg.manyof(2, [1, -1, 3])',
+           '[1, [2]]', 'None']),
+    'd': (["dict(k=1, l='a')", "dict(k=pg.oneof([1, 2]), l='a')"],
+          ["dict(k='x', l='a')", 'dict(k=1, l=2)', "dict(k=1, l='a', m=3)",
+           "dict(k=pg.oneof([1, 'z']), l='a')", '1', 'None']),
+    'u': (["'a'", '1'], ['1.5', 'None', '[1]']),
+    'o': (['A(x=1)', 'A2(x=2)', 'A(x=pg.oneof([1, 2]))'],
+          ['1', "dict(x=1)", 'None', "B(p=[1], q=0.5, r=1, s=dict(k=1, l='a'))"]),
+    'e': (["'a'", "'b'"], ["'c'", '1', 'None']),
+    'n': (['1', 'None'], ["'a'", '1.5']),
+    't': (["(1, 'a')"], ["(1, 2)", "(1,)", "(1, 'a', 2)", '1']),
+    'b': (['True', 'False'], ['1', "'x'", 'None']),
+}
+
+# Placeholder shapes around a list of candidate sources (the bad one included).
+SHAPES = [
+    ('oneof', lambda cs: 'pg.oneof([%s])' % ', '.join(cs)),
+    ('oneof-nested', lambda cs: 'pg.oneof([%s, pg.oneof([%s])])' % (cs[0], ', '.join(cs[1:]))),
+    ('oneof-nested2', lambda cs: 'pg.oneof([pg.oneof([pg.oneof([%s])]), %s])' % (', '.join(cs[1:]), cs[0])),
+]
+
+SIZE_CASES = [
+    # (case, field, source): list-size constraints vs manyof's number of choices.
+    ('manyof-k-outside-list-size-limits', 'l', 'pg.manyof(4, [1, 2, 3, 4])'),
+    ('manyof-k-outside-list-size-limits', 'l', 'pg.manyof(4, [1, 2], distinct=False)'),
+    ('manyof-k-outside-list-size-limits', 'l', 'pg.oneof([[1], pg.manyof(4, [1, 2, 3, 4])])'),
+    ('manyof-k-outside-list-size-limits', 'm', 'pg.manyof(2, [1, 2, 3])'),
+    ('manyof-k==max_size', 'l', 'pg.manyof(3, [1, 2, 3, 4])'),
+    ('manyof-k==min_size', 'l', 'pg.manyof(1, [1, 2])'),
+    ('manyof-k==min_size', 'm', 'pg.manyof(3, [1, 2, 3])'),
+]
+
+_ENV = None
+
+
+def _env():
+  global _ENV
+  if _ENV is None:
+    _ENV = dict(pg=pg, A=A, A2=A2, B=B, H=H)
+  return _ENV
+
+
+def _bind_check(rec, case_id, field, psrc, expect_buildable, tier):
+  """H(field=<psrc>): if it builds, every DNA must decode to an accepted value."""
+  code = f'H({field}={psrc})'
+  wit = ('import pyglove as pg\nfrom bounded.c13_hyper import A, A2, B, H\n'
+         f'v = {code}\nt = pg.template(v)\n'
+         'for d in t.dna_spec().iter_dna():\n'
+         '  x = t.decode(d)\n'
+         f"  H.__schema__['{field}'].value.apply(pg.clone(x.sym_getattr('{field}'), deep=True))")
+  try:
+    v = eval(code, dict(_env()))  # pylint: disable=eval-used
+  except (TypeError, ValueError, KeyError) as e:
+    rec.case(case_id, code, not expect_buildable,
+             f'acceptable placeholder refused at binding: {type(e).__name__}: {str(e)[:200]}',
+             wit)
+    return
+  except Exception as e:  # pylint: disable=broad-except
+    rec.case(case_id, code, False, f'unexpected {type(e).__name__}: {e}', wit)
+    return
+  try:
+    t = pg.template(v)
+    spec = t.dna_spec()
+    if not t.hyper_primitives:
+      rec.case(case_id, code, True)
+      return
+    dnas = []
+    if spec.space_size != -1 and spec.space_size <= 60:
+      dnas = list(spec.iter_dna())
+    else:
+      r = rng(0, 'c13-bind' + code)
+      dnas = [spec.first_dna()] + [pg.random_dna(spec, r) for _ in range(12)]
+  except Exception as e:  # pylint: disable=broad-except
+    rec.case(case_id, code, False, f'unexpected {type(e).__name__}: {e}', wit)
+    return
+  fspec = H.__schema__[field].value
+  bad = None
+  for d in dnas:
+    try:
+      x = t.decode(d)
+      val = x.sym_getattr(field)
+      fspec.apply(pg.clone(val, deep=True) if isinstance(val, pg.Symbolic) else val)
+      if pg.contains(x, type=pg.hyper.HyperValue):
+        bad = f'{d!r}: placeholder left'
+    except Exception as e:  # pylint: disable=broad-except
+      bad = f'template was accepted at binding, but decode({d!r}) -> {type(e).__name__}: {str(e)[:200]}'
+    if bad:
+      break
+  rec.case(case_id, code, bad is None, bad, wit)
+
+
+def drv_binding(tier, seed):
+  del seed
+  rec = Recorder(
+      'C13', 'decoded values are accepted by the value spec the placeholder is bound to',
+      scope='11 field specs (Int range, Str, Float range, List(min/max size), '
+      'Dict schema, Union, Object, Enum, noneable, Tuple, Bool) x good/bad '
+      'candidates x placement (direct, nested oneof x2, floatv, manyof, list '
+      'element, dict field) ; shared placeholders re-bound to a second spec; '
+      'manyof size vs list size limits')
+  for field, (good, bad) in FIELD_VALUES.items():
+    plain_good = [g for g in good if 'pg.' not in g] or good
+    # All-good placements must build and decode to accepted values.
+    for sname, shape in SHAPES:
+      cs = (good + good)[:max(3, len(good))]
+      _bind_check(rec, f'bind.good/{field}.{sname}', field, shape(cs), True, tier)
+    for g in good:
+      _bind_check(rec, f'bind.good/{field}.direct', field, g, True, tier)
+    # One bad candidate, at every position of every shape.
+    for b in bad:
+      cls = 'hyper' if 'pg.' in b else 'const'
+      for sname, shape in SHAPES:
+        for pos in range(3):
+          cs = [plain_good[0], plain_good[-1]]
+          cs.insert(min(pos, len(cs)), b)
+          _bind_check(rec, f'bind.bad-candidate/{field}.{sname}.{cls}', field,
+                      shape(cs), False, tier)
+      if 'pg.' in b:
+        _bind_check(rec, f'bind.bad-candidate/{field}.direct.{cls}', field, b,
+                    False, tier)
+  for case, field, psrc in SIZE_CASES:
+    _bind_check(rec, f'bind.list-size/{case}', field, psrc,
+                'outside' not in case, tier)
+  # A placeholder object already bound to one spec, then bound to another.
+  rebinds = [
+      ('loose-then-strict', 'Int()', 'i', 'pg.oneof([1, -1])'),
+      ('any-then-strict', 'Any()', 'i', 'pg.oneof([1, -1])'),
+      ('strict-then-loose', 'Int(min_value=0, max_value=5)', 'i', 'pg.oneof([1, 2])'),
+      ('str-then-union', 'Str()', 'u', "pg.oneof(['a', 'b'])"),
+      ('list-then-list', 'List(pg.typing.Int())', 'l', 'pg.manyof(2, [1, -1, 3])'),
+      ('float-then-float', 'Float()', 'f', 'pg.floatv(0.5, 1.5)'),
+  ]
+  for name, first, field, psrc in rebinds:
+    for keep_parent in (False, True):
+      code = (f"h = {psrc}\nfirst = pg.Dict(z=h, value_spec=pg.typing.Dict([('z', pg.typing.{first})]))\n"
+              + ('' if keep_parent else "h = first.z\nfirst = None\n")
+              + f'v = H({field}=h)\n')
+      wit = ('import pyglove as pg\nfrom bounded.c13_hyper import A, A2, B, H\n' + code
+             + 't = pg.template(v)\nfor d in t.dna_spec().iter_dna():\n  t.decode(d)')
+      cid = f'bind.rebound/{name}' + ('.has-parent' if keep_parent else '')
+      env = dict(_env())
+      try:
+        exec(code, env)  # pylint: disable=exec-used
+      except (TypeError, ValueError):
+        rec.case(cid, code, name in ('loose-then-strict', 'any-then-strict',
+                                     'list-then-list', 'float-then-float'),
+                 'acceptable shared placeholder refused', wit)
+        continue
+      except Exception as e:  # pylint: disable=broad-except
+        rec.case(cid, code, False, f'unexpected {type(e).__name__}: {e}', wit)
+        continue
+      bad = None
+      try:
+        t = pg.template(env['v'])
+        spec = t.dna_spec()
+        dnas = (list(spec.iter_dna()) if spec.space_size != -1
+                else [pg.DNA(t.hyper_primitives[0][1].max_value)])
+        for d in dnas:
+          x = t.decode(d)
+          H.__schema__[field].value.apply(pg.clone(x.sym_getattr(field), deep=True)
+                                          if isinstance(x.sym_getattr(field), pg.Symbolic)
+                                          else x.sym_getattr(field))
+      except Exception as e:  # pylint: disable=broad-except
+        bad = f'accepted at binding, but decode -> {type(e).__name__}: {str(e)[:200]}'
+      rec.case(cid, code, bad is None, bad, wit)
+  return rec.result()
+
+
+# ---------------------------------------------------------------------------
+# Driver 4: DNAs outside the specification are refused by decode (a decode
+# that accepts them cannot be inverted by encode).
+# ---------------------------------------------------------------------------
+
+
+def _invalid_dnas():
+  """(class, template source, dna source) -- each DNA is invalid for the spec."""
+  out = []
+  add = lambda c, t, d: out.append((c, t, d))
+  for ctx, wrap in (('root', '%s'), ('dict', 'pg.Dict(a=%s)'), ('list', 'pg.List([0, %s])'),
+                    ('cand', "pg.oneof(['z', %s])")):
+    def dn(d, ctx=ctx):
+      return f'pg.DNA(1, [{d}])' if ctx == 'cand' else d
+    for n in (1, 2, 3):
+      o = wrap % ('pg.oneof(%r)' % list(range(10, 10 + n)))
+      add('oneof-index==len', o, dn(f'pg.DNA({n})'))
+      add('oneof-index>len', o, dn(f'pg.DNA({n + 3})'))
+      add('oneof-negative-index', o, dn('pg.DNA(-1)'))
+      add('oneof-negative-index', o, dn(f'pg.DNA({-n})'))
+      add('oneof-float-index', o, dn('pg.DNA(0.0)'))
+      add('oneof-str-index', o, dn("pg.DNA('0')"))
+      add('oneof-extra-children-for-constant', o, dn('pg.DNA(0, [pg.DNA(0)])'))
+    if ctx != 'cand':
+      add('oneof-missing-value', wrap % 'pg.oneof([10, 11])', 'pg.DNA(None)')
+    c = wrap % "pg.oneof([pg.oneof([1, 2]), 'x'])"
+    add('conditional-missing-child', c, dn('pg.DNA(0)'))
+    add('conditional-child-out-of-range', c, dn('pg.DNA(0, [pg.DNA(2)])'))
+    add('oneof-negative-index', c, dn('pg.DNA(0, [pg.DNA(-1)])'))
+    add('oneof-extra-children-for-constant', c, dn('pg.DNA(1, [pg.DNA(0)])'))
+    c2 = wrap % "pg.oneof([pg.Dict(p=pg.oneof([1, 2]), q=pg.oneof([3, 4])), 'x'])"
+    add('conditional-too-few-children', c2, dn('pg.DNA(0, [pg.DNA(0)])'))
+    add('conditional-too-many-children', c2, dn('pg.DNA(0, [pg.DNA(0), pg.DNA(1), pg.DNA(0)])'))
+    for distinct in (True, False):
+      for srt in (True, False):
+        m = wrap % f'pg.manyof(2, [10, 11, 12], distinct={distinct}, sorted={srt})'
+        tag = 'manyof'
+        add(f'{tag}-too-few-children', m, dn('pg.DNA(None, [pg.DNA(0)])') if ctx != 'cand' else dn('pg.DNA(0)'))
+        add(f'{tag}-too-many-children', m, dn('pg.DNA(None, [pg.DNA(0), pg.DNA(1), pg.DNA(2)])')
+            if ctx != 'cand' else 'pg.DNA(1, [pg.DNA(0), pg.DNA(1), pg.DNA(2)])')
+        mk = (lambda a, b: dn(f'pg.DNA(None, [pg.DNA({a}), pg.DNA({b})])') if ctx != 'cand'
+              else f'pg.DNA(1, [pg.DNA({a}), pg.DNA({b})])')
+        add(f'{tag}-index==len', m, mk(0, 3))
+        add(f'{tag}-index==len', m, mk(3, 4))
+        add(f'{tag}-negative-index', m, mk(-1, 0))
+        add(f'{tag}-negative-index', m, mk(-2, 2))
+        add(f'{tag}-float-index', m, mk(0.0, 1))
+        if distinct:
+          add(f'{tag}-not-distinct', m, mk(1, 1))
+          add(f'{tag}-not-distinct', m, mk(2, 2))
+        if srt:
+          add(f'{tag}-not-sorted', m, mk(1, 0))
+          add(f'{tag}-not-sorted', m, mk(2, 1))
+    f = wrap % 'pg.floatv(-1.0, 2.0)'
+    add('float-below-min', f, dn('pg.DNA(-1.0000001)'))
+    add('float-below-min', f, dn('pg.DNA(-5.0)'))
+    add('float-above-max', f, dn('pg.DNA(2.0000001)'))
+    add('float-above-max', f, dn('pg.DNA(1e9)'))
+    add('float-int-value', f, dn('pg.DNA(1)'))
+    add('float-str-value', f, dn("pg.DNA('1.0')"))
+    if ctx != 'cand':
+      add('float-missing-value', f, 'pg.DNA(None)')
+    cu = wrap % 'IntSeq(n=3)'
+    add('custom-int-value', cu, dn('pg.DNA(0)'))
+    add('custom-float-value', cu, dn('pg.DNA(0.5)'))
+  two = 'pg.Dict(a=pg.oneof([1, 2]), b=pg.floatv(0.0, 1.0), c=pg.oneof([3, 4]))'
+  add('template-too-few-children', two, 'pg.DNA(None, [pg.DNA(0), pg.DNA(0.5)])')
+  add('template-too-many-children', two, 'pg.DNA(None, [pg.DNA(0), pg.DNA(0.5), pg.DNA(0), pg.DNA(0)])')
+  add('template-swapped-children', two, 'pg.DNA(None, [pg.DNA(0.5), pg.DNA(0), pg.DNA(0)])')
+  add('constant-template-extra-dna', 'pg.Dict(a=1)', 'pg.DNA(0)')
+  add('constant-template-extra-dna', 'pg.Dict(a=1)', 'pg.DNA(None, [pg.DNA(0), pg.DNA(1)])')
+  return out
+
+
+def drv_decode_invalid(tier, seed):
+  del tier, seed
+  rec = Recorder(
+      'C13', 'decode refuses DNAs that are invalid for the specification',
+      scope='oneof n<=3, conditional oneof, manyof(2 of 3) in 4 modes, floatv, '
+      'custom; placed at root / dict / list / as candidate; index == len, > len, '
+      'negative, wrong type, wrong arity, not distinct, not sorted, out of range')
+  env = dict(pg=pg, IntSeq=IntSeq)
+  for cls, tsrc, dsrc in _invalid_dnas():
+    wit = ('import pyglove as pg\n' + ('from bounded.c13_hyper import IntSeq\n' if 'IntSeq' in tsrc else '')
+           + f't = pg.template({tsrc})\nd = {dsrc}\n'
+           'try:\n  x = t.decode(d)\nexcept Exception:\n  pass\nelse:\n'
+           "  raise AssertionError(f'invalid DNA {d!r} decoded to {x!r}; encode gives {t.try_encode(x)[1]!r}')")
+    try:
+      t = pg.template(eval(tsrc, dict(env)))  # pylint: disable=eval-used
+      d = eval(dsrc, dict(env))  # pylint: disable=eval-used
+    except Exception as e:  # pylint: disable=broad-except
+      rec.case('decode-invalid/harness', (tsrc, dsrc), False, f'{type(e).__name__}: {e}', wit)
+      continue
+    try:
+      x = t.decode(d)
+    except Exception:  # pylint: disable=broad-except
+      rec.case(f'decode-invalid/{cls}', (tsrc, dsrc), True)
+      continue
+    ok_enc, back = t.try_encode(x)
+    rec.case(f'decode-invalid/{cls}', (tsrc, dsrc), False,
+             f'decode({d!r}) returned {x!r} for a DNA outside the spec; '
+             f'encode of that value gives {back!r} != the DNA', wit)
+  return rec.result()
+
+
+DRIVERS = [drv_decode_encode, drv_iter, drv_binding, drv_decode_invalid]
+
+
+def replay(rec):
+  """Re-executes rec['witness']; returns (ok, message)."""
+  try:
+    exec(rec['witness'], {})  # pylint: disable=exec-used
+    return True, 'witness passes'
+  except Exception as e:  # pylint: disable=broad-except
+    return False, f'{type(e).__name__}: {e}'
